@@ -250,7 +250,7 @@ func run(p *program, crashIdx int, mode string) (res outcome) {
 		res.infra = "recovery: " + err.Error()
 		return
 	}
-	res.viol = sim.CheckHistory(w.Recs(), res.truth, p.keys, nil)
+	res.viol = sim.CheckHistory(w.Recs(), res.truth, p.keys, nil, cl.Trace.Since(0)...)
 	v := res.victim
 	o, _ := sim.OutcomeOf(v, res.truth)
 	res.fate = "rolled-back"
